@@ -39,8 +39,12 @@ fn ref_cmp(ra: u16, ia: &[u8; 2], rb: u16, ib: &[u8; 2]) -> Ordering {
     Ordering::Equal
 }
 
+// `str::to_lowercase` is not called by the order today; the stub only keeps the harness decidable if
+// a change starts case-folding the ids (std's version yields a String of symbolic length: the
+// seeded change C11-m1 made this harness time out instead of failing).
 #[kani::proof]
 #[kani::unwind(4)]
+#[kani::stub(str::to_lowercase, ascii_lowercase_model)]
 fn c11_rule_order_total() {
     let ia = ascii_bytes::<2>();
     let ib = ascii_bytes::<2>();
